@@ -149,6 +149,19 @@ CHECKS['C15'] = dict(
     note=TB + 'pandas groupby / file discovery are exercised, not modelled; Reals axioms for the word-error theorem.',
     technique='Coq theorems (counts are permutation-invariant monoid homomorphisms) + kernel-evaluated count correspondence')
 
+CHECKS['C12'] = dict(
+    category='proof',
+    text=('Unbounded Coq theorems on the state-machine model of BatchSimulation._run with atomic checkpoints (any key/trial types, any '
+          'generator, any save schedule, any stop point, specifications that grow): a completed run leaves exactly T trials for every '
+          'simulation, each list being the adopted one extended; a stopped run leaves on disk the previous file or the memory state at a '
+          'save point, always a prefix-extension of the previous file and never beyond the target; only entries with equal inputs are '
+          'adopted; the pre-fix truncating write is refuted. Kernel-evaluated correspondence: per-simulation trial counts on disk after '
+          'every injected stop (KeyboardInterrupt / kill in a trial, inside a save, after b bytes of a checkpoint write, plain and gzip) '
+          'belong to the model\'s reachable set, and equal the model after completion; prefix preservation checked on the real lists.'),
+    design_ref='DESIGN.md section 5 C12',
+    note=TB + 'Assumes the file system renames atomically. Stops are injected in a child process by patching run_once/save_json/the file object.',
+    technique='Coq theorems (run/checkpoint/restart state machine, all histories) + kernel-evaluated correspondence under crash injection')
+
 NOT_APPLICABLE = {}
 
 PENDING = ['C02', 'C03', 'C04', 'C05', 'C06', 'C07', 'C08', 'C09', 'C10', 'C11', 'C12', 'C13', 'C14', 'C15',
